@@ -19,17 +19,17 @@ import (
 type C16Outer struct {
 	// nested members are declared before, between and after the scalar fields: the rule set that
 	// governs this object is the same for every one of its fields, whatever was visited in between
-	In    C16Inner            `valid:"exist"`
-	Name  string              `valid:"to=1~3|tag_outer_name"`
-	InP   *C16Inner           `valid:"exist"`
-	Age   int                 `valid:"le=5|tag_outer_age"`
-	Code  string              `valid:"int|tag_outer_code"`
-	Ins   []C16Inner          `valid:"exist"`
-	Self  *C16Outer           `valid:"exist"`
-	Other C16Other            `valid:"exist"`
-	Oths  []*C16Other         `valid:"exist"`
-	Bares []C16Bare           `valid:"exist"`
-	BareM map[string]*C16Bare `valid:"exist"`
+	In    C16Inner            `valid:"exist" alt:"exist"`
+	Name  string              `valid:"to=1~3|tag_outer_name" alt:"to=2~5|alt_outer_name"`
+	InP   *C16Inner           `valid:"exist" alt:"exist"`
+	Age   int                 `valid:"le=5|tag_outer_age" alt:"ge=3|alt_outer_age"`
+	Code  string              `valid:"int|tag_outer_code" alt:"to=2~2|alt_outer_code"`
+	Ins   []C16Inner          `valid:"exist" alt:"exist"`
+	Self  *C16Outer           `valid:"exist" alt:"exist"`
+	Other C16Other            `valid:"exist" alt:"exist"`
+	Oths  []*C16Other         `valid:"exist" alt:"exist"`
+	Bares []C16Bare           `valid:"exist" alt:"exist"`
+	BareM map[string]*C16Bare `valid:"exist" alt:"exist"`
 }
 
 // C16Bare has no tag rules at all: only a rule set registered for the type can judge it.
@@ -40,16 +40,16 @@ type C16Bare struct {
 }
 
 type C16Inner struct {
-	Name string    `valid:"to=1~3|tag_inner_name"`
-	Deep *C16Other `valid:"exist"`
-	Age  int       `valid:"le=5|tag_inner_age"`
+	Name string    `valid:"to=1~3|tag_inner_name" alt:"required|alt_inner_name"`
+	Deep *C16Other `valid:"exist" alt:"exist"`
+	Age  int       `valid:"le=5|tag_inner_age" alt:"le=2|alt_inner_age"`
 	Code string    `valid:"int|tag_inner_code"`
 }
 
 type C16Other struct {
-	Name string `valid:"to=1~3|tag_other_name"`
+	Name string `valid:"to=1~3|tag_other_name" alt:"phone|alt_other_name"`
 	Code string
-	Age  int    `valid:"ge=2|tag_other_age"`
+	Age  int    `valid:"ge=2|tag_other_age" alt:"lt=4|alt_other_age"`
 	Tel  string `valid:"phone|tag_other_phone,to=1~20|tag_other_tel"`
 }
 
@@ -157,25 +157,15 @@ func c16RuleSet(rng *rand.Rand, src string, names []string, fnNames []string) ma
 		}
 	}
 	_ = names
+	shareTail(rng, rm, src+"_shared")
 	return rm
-}
-
-func toRM(m map[string]string) valid.RM {
-	if m == nil {
-		return nil
-	}
-	r := valid.RM{}
-	for k, v := range m {
-		r[k] = v
-	}
-	return r
 }
 
 func init() {
 	core.Register(&core.Prop{
 		ID: "C16",
 		Rule: "object graphs of three named struct types that share the field names Name / Age / Code (the outermost type re-occurs nested, inner types occur as value, pointer, slice element) with tag rules, plus rule sets supplied per call in the layouts {none, unscoped only, scoped inner, scoped outer, scoped inner+outer, unscoped + scoped inner, unscoped + empty scoped outer, scoped for two inner types}; sets mention a field with a rule, with an empty rule or not at all; " +
-			"rule names resolve to per-call functions, globally registered functions (some replacing built-ins) or built-ins in every collision class, and to unknown names; through Struct, StructForFn, StructForFns, NestedStructForRule, ValidStructForRule, ValidStructForMyValidFn and the chained NewVStruct().SetRule().SetValidFn().Valid(). Every tag rule, supplied rule and function writes a distinct marker, the (path, marker) sequence must equal the reference's. distinct = distinct (graph, layout, rule sets, function table); non-trivial = a supplied set or a function is present",
+			"rule names resolve to per-call functions, globally registered functions (some replacing built-ins) or built-ins in every collision class, and to unknown names; through Struct, StructForFn, StructForFns, NestedStructForRule, ValidateStruct, ValidStructForRule, ValidStructForMyValidFn and the chained NewVStruct().SetRule().SetValidFn().Valid(), one call in three under a second tag name (alt) for which the family carries other rules. Every tag rule, supplied rule and function writes a distinct marker, the (path, marker) sequence must equal the reference's. distinct = distinct (graph, layout, rule sets, function table); non-trivial = a supplied set or a function is present",
 		Shards: func(t core.Tier) int { return 16 },
 		Run:    runC16,
 		Check: func(r *core.Result, t core.Tier) {
@@ -432,6 +422,13 @@ func c16Case(res *core.Result, rng *rand.Rand, idx int) {
 			}
 		}
 	}
+	// the tag name of the call: the family carries a second rule set under "alt"
+	tag := "valid"
+	if rng.Intn(3) == 0 {
+		tag = "alt"
+		env.Tag = "alt"
+		res.Count("calls_under_second_tag_name")
+	}
 	// route
 	var in interface{} = o
 	top := "ptr"
@@ -445,7 +442,10 @@ func c16Case(res *core.Result, rng *rand.Rand, idx int) {
 		}
 	}
 	chain := func() *valid.VStruct {
-		vs := valid.NewVStruct()
+		vs := valid.NewVStruct(tag)
+		if tag == "valid" && rng.Intn(2) == 0 {
+			vs = valid.NewVStruct()
+		}
 		if unscoped != nil {
 			switch rng.Intn(4) {
 			case 0: // the (still empty) map is handed over first and filled afterwards: it is the same map
@@ -493,27 +493,44 @@ func c16Case(res *core.Result, rng *rand.Rand, idx int) {
 	call := func() error { return chain().Valid(in) }
 	switch {
 	case nScoped == 0 && len(local) == 0 && rng.Intn(2) == 0:
-		switch rng.Intn(3) {
-		case 0:
+		switch r := rng.Intn(4); {
+		case r == 0 && tag == "valid":
 			route, call = "Struct", func() error {
 				if unscoped == nil {
 					return valid.Struct(in)
 				}
 				return valid.Struct(in, toRM(unscoped))
 			}
-		case 1:
-			route, call = "StructForFn", func() error { return valid.StructForFn(in, toRM(unscoped), "valid") }
+		case r == 1 || r == 0:
+			route, call = "StructForFn", func() error { return valid.StructForFn(in, toRM(unscoped), tag) }
+		case r == 2 && unscoped == nil:
+			route, call = "ValidateStruct", func() error { return valid.ValidateStruct(in, tag) }
 		default:
-			route, call = "ValidStructForRule", func() error { return valid.ValidStructForRule(toRM(unscoped), in) }
+			route, call = "ValidStructForRule", func() error {
+				if tag == "valid" {
+					return valid.ValidStructForRule(toRM(unscoped), in)
+				}
+				return valid.ValidStructForRule(toRM(unscoped), in, tag)
+			}
 		}
 	case nScoped == 0 && len(local) > 0 && rng.Intn(2) == 0:
-		route, call = "StructForFns", func() error { return valid.StructForFns(in, toRM(unscoped), local) }
+		route, call = "StructForFns", func() error {
+			if tag == "valid" {
+				return valid.StructForFns(in, toRM(unscoped), local)
+			}
+			return valid.StructForFns(in, toRM(unscoped), local, tag)
+		}
 	case nScoped == 0 && unscoped == nil && len(local) == 1 && rng.Intn(2) == 0:
 		for n, f := range local {
 			n, f := n, f
-			route, call = "ValidStructForMyValidFn", func() error { return valid.ValidStructForMyValidFn(in, n, f) }
+			route, call = "ValidStructForMyValidFn", func() error {
+				if tag == "valid" {
+					return valid.ValidStructForMyValidFn(in, n, f)
+				}
+				return valid.ValidStructForMyValidFn(in, n, f, tag)
+			}
 		}
-	case nScoped > 0 && unscoped == nil && len(local) == 0 && rng.Intn(2) == 0:
+	case nScoped > 0 && unscoped == nil && len(local) == 0 && tag == "valid" && rng.Intn(2) == 0:
 		rmap := map[interface{}]valid.RM{}
 		if scOuter != nil {
 			rmap[&C16Outer{}] = toRM(scOuter)
